@@ -79,6 +79,18 @@ def c03_1(c: Ctx) -> None:
     for cu, ccall in c.cg.callers(owner):
         if cu.key in eval_owners:
             c.ok(where(cu, ccall), f'{MARK} called from {cu.qualname} (after processing)')
+            continue
+        # elsewhere the evaluation is sound only for an event that has results (its processing has begun): the "no results = complete" reading cannot apply then
+        recv = U(ccall.func.value) if isinstance(ccall.func, ast.Attribute) else None
+        guarded = False
+        if recv is not None:
+            gcu = c.cfg(cu)
+            atom_r = f'{recv}.event_results'
+            fr = Facts(lambda a: a == atom_r, cg=c.cg, unit=cu)
+            nodes_ = gcu.nodes_of(q.stmt_of(ccall))
+            guarded = bool(nodes_) and all(q.guard_search(gcu, n_, atom_r, fr) is None for n_ in nodes_)
+        if guarded:
+            c.ok(where(cu, ccall), f'{MARK} called from {cu.qualname} only for an event that has results (processing has begun)')
         else:
             c.fail(cu, f'calls {MARK}: {q.stmt_text(q.stmt_of(ccall), 70)}', f'completion is evaluated from {cu.qualname}, outside event processing: an event that is still queued (or was just withdrawn) has no results and is '
                    'signalled complete — and is processed afterwards all the same, or its ancestors are never re-evaluated', node=ccall)
